@@ -69,7 +69,7 @@ const KINDS: [&str; 7] = ["GetLastStateProof", "GetBlocksProof", "GetTransaction
 
 fn build_chain_pow(p: &ChainParams, dummy: bool) -> Chain {
     let epochs = gen_epochs(p.seed, p.n_epochs.max(1) as usize, p.maxlen.max(1) as u64, 20);
-    let txgen = TxGen { density: p.density as u64, max_txs: 3, typed: p.typed as u64, same_block: p.same_block as u64, cellbase_universe: p.cellbase_universe };
+    let txgen = TxGen { density: p.density as u64, max_txs: 3, typed: p.typed as u64, same_block: p.same_block as u64, cellbase_universe: p.cellbase_universe, gate: false };
     let mut chain = Chain::new(epochs, START_TIME, p.seed, if dummy { Pow::Dummy } else { Pow::Eaglesong }, txgen);
     chain.mine_n(p.len as u64);
     chain
